@@ -345,6 +345,10 @@ def stopwatch_cases(chk, tier):
     if tier == 'thorough':
         args_ += [('S5', 'MLa:a'), ('LP', 'b:KaNa'), ('T', 'La:LLa'), ('GO', 'UaUba')]
     cases = [dict(logic=l, arg=a, timeout=t) for l, a in args_ for t in (10 ** 9, 40, 90, 150, 260, 400)]
+    # with model building on (invalid arguments): the time spent reading models inside the last step() is build time too
+    cases += [dict(logic=l, arg=a, timeout=t, models=True) for l, a in (('CPL', 'b:Aab'), ('K', 'b:MKab:KMaMb'), ('CFOL', 'b:SxFx:SxGx'),
+                                                                         ('FDE', 'c:Aab:NKab'), ('S5', 'b:MLa'))
+              for t in (10 ** 9, 120, 200)]
     out = probe_json('probe_stopwatch.py', stdin=json.dumps(dict(cases=cases)), timeout=1800)['cases']
     for c, r in zip(cases, out):
         real, ref = r.get('real'), r.get('ref')
@@ -366,9 +370,19 @@ def stopwatch_cases(chk, tier):
                           f"step() call #{k + 1} gives {real[k] if isinstance(real, list) and k < len(real) else real} with the real timer, "
                           f"{ref[k] if k < len(ref) else 'nothing'} with a cumulative stopwatch [outcome, finished, premature, timed_out, steps, elapsed_ms]",
                           dict(kind='stopwatch', case=c, real=real, reference=ref))
-        elif timed:
+        if isinstance(real, list) and real and real[-1][5] is not None and not timed:
+            # completed without a timeout: everything the clock counted inside step() calls is in the build timer,
+            # up to the one reading each call makes outside it
+            spent, calls, elapsed = sum(x[6] for x in real), len(real), real[-1][5]
+            if spent - elapsed > calls + 2:
+                chk.violation('Tableau.step/time-outside-the-build-timer',
+                              f"{c['logic']} {c['arg']} (models={bool(c.get('models'))}): {spent} ms of clock time passed inside step() calls "
+                              f"but the build timer accumulated only {elapsed} ms over {calls} calls: part of a step (e.g. model building "
+                              f"in finish()) is not measured, so the time limit cannot fire there",
+                              dict(kind='stopwatch', case=c, real=real))
+        if real == ref and timed:
             last = ref[-1]
-            if not (last[1] and last[2] and last[3]):
+            if not (last[1] and last[3] and (last[2] or c.get("models"))):   # premature unless the search itself had completed (timeout in model building)
                 chk.violation('Tableau._check_timeout/timeout-leaves-unfinished',
                               f"{c['logic']} {c['arg']} build_timeout={c['timeout']}: ProofTimeoutError raised but flags are {last}",
                               dict(kind='stopwatch', case=c, real=real))
